@@ -103,11 +103,13 @@ def keyfn(mode):
         return functools.cmp_to_key(lambda a, b: (a < b) - (a > b))
     if mode == 2:
         return lambda k: k.lower()
+    if mode == 3:
+        return lambda k: k.rstrip(b" ")
     return lambda k: k
 
 
 def ident(mode, k):
-    return k.lower() if mode == 2 else k
+    return k.lower() if mode == 2 else k.rstrip(b" ") if mode == 3 else k
 
 
 class Ideal:
@@ -156,7 +158,9 @@ class TreeOracle:
         st = state_of(line)
         kind = w[0]
         err = None
-        if kind == "hugetree":
+        if kind == "errno":
+            return None if line == "ok" else "harness rejected the operation"
+        if kind in ("hugetree", "bigtree"):
             # self-checking pass of the harness over a private table with a value / key of >= 2^31 bytes
             return None if line == "ok live=0" else "self-checking pass `%s`: %s" % (op, line[:200])
         if kind == "inv":
@@ -504,11 +508,19 @@ class TreeCheck(Check):
             sts.append(Stream("faults-inside-walks", self.fault_walk_ops(self.tier != "quick"), history=True))
             sts.append(Stream("epoch-sweep", self.epoch_sweep_ops(self.tier != "quick"), history=True,
                               note="a fresh key, then a walk / a search with continuation, at EVERY value of the 8-bit epoch (both parities)"))
+        # user comparators that identify keys of different lengths (3) / that leave errno set (4)
+        rng = self.rng
+        kg3 = lambda n_: [bytes(rng.choice(b"ab") for _ in range(rng.randrange(1, 3))) + b" " * rng.randrange(0, 4) for _ in range(n_)]
+        for mode, kg in ((3, kg3), (4, None)):
+            sts.append(Stream("random-comparator%d" % mode,
+                              self.random_history(500 if self.tier == "quick" else 5000, 24, mode,
+                                                  ops=("put", "put", "rm", "get", "near", "nearnext", "walk", "min", "max", "size"),
+                                                  quiet=False, keygen=kg), history=True))
         # the same table created thread-safe (single-threaded use must not differ: error reports, errno)
         ts = [o.replace("new 0", "new 10") for o in self.nulldata_ops(faults=True) + self.fault_walk_ops(False)[:400]]
         sts.append(Stream("threadsafe-option", ts, history=True))
         if self.tier != "quick":
-            sts.append(Stream("huge", ["hugetree 2147483649", "hugetree 4294967312"], history=False, nomodel=True,
+            sts.append(Stream("huge", ["hugetree 2147483649", "hugetree 4294967312", "bigtree"], history=False, nomodel=True,
                               note="self-checking passes over a private table with one value and one key of 2^31+1 / 2^32+16 bytes: "
                                    "sizes reported by get / getnext / find_nearest, replacement, removal, order of the 1-byte prefix key"))
         sts.append(Stream("null-data-values", self.nulldata_ops(), history=True))
@@ -523,6 +535,9 @@ class TreeCheck(Check):
             pool = keygen(nkeys)
         out = ["new %d" % mode] + (["quiet 1"] if quiet else [])
         for i in range(n):
+            if rng.random() < 0.04:
+                # the errno value the caller brings into the following calls: no result may depend on it
+                out.append("errno %s" % rng.choice(["0", "ENOMEM", "ERANGE", "EINTR", "ENOENT", "EINVAL", "EAGAIN", "ENOBUFS"]))
             o = rng.choice(ops)
             k = rng.choice(pool)
             if o == "put":
